@@ -357,7 +357,7 @@ def run(prog, rep, tier):
     # the decoded fields are observed through their JSON rendering too (address and squawk text, keys): C07's shape and
     # key rules (lower-case 6-digit hex address fed from the right field, serialisable alternatives) are evaluated here as well
     from props import c07
-    c07.run(prog, util.Prefixed(rep, 'L6-json/'), tier)
+    c07.run(prog, util.Prefixed(rep, 'L6-json/'), tier, compose=False)
 
 
 def l5_altitude_identity(prog, rep, tier):
